@@ -1,6 +1,7 @@
 import GtirbVerif.Lemmas.Splice
 import GtirbVerif.Lemmas.IRFunc
 import GtirbVerif.Lemmas.IRMirror
+import GtirbVerif.Lemmas.IRSymClosed
 import GtirbVerif.Props.C20
 
 /-!
@@ -15,7 +16,10 @@ import GtirbVerif.Props.C20
   the edge set, the block ordering of the list of blocks, `functions_by_block` of
   `functionBlocks` (restated from C20 / C06); and the only state `_apply_modifications` carries
   from one modification of a block to the next is the running offset: processing a request
-  list in one go equals processing a prefix and then the rest.
+  list in one go equals processing a prefix and then the rest; at every step of a batch the
+  function cache mirrors the table, the block ordering names only blocks that are part of the
+  module - attached, in the section the chain belongs to, each once per chain - and every symbol
+  referent is a block of the module (`caches_name_module_blocks_at_every_step`).
 -/
 namespace GtirbVerif.Props.C09
 open GtirbVerif GtirbVerif.IR GtirbVerif.Batch GtirbVerif.Listing GtirbVerif.Adt
@@ -77,5 +81,16 @@ theorem function_cache_agrees_at_every_step (origOff i : Nat) (func : Option Nat
     (hact : ∀ a, actual = some a → In i ir a) (hI : IdsBelow ir) (hnew : NewBlocks origOff func ir actual total ms)
     (hm : MInv ir) : Mirror ir' :=
   (applyMods_minv origOff i func ms ir ir' actual total h hact hI hnew hm).1
+
+/-- **at every intermediate step of a batch the block ordering and the referents speak of the
+module**: after any prefix of the requests of a block, every entry of the ordering `adjacent_blocks`
+answers from is a block attached to a byte interval of the chain's section (once per chain), and
+every symbol that refers to a block refers to an attached one -/
+theorem caches_name_module_blocks_at_every_step (origOff i : Nat) (func : Option Nat) (ms : List Mod) (ir ir' : IR)
+    (actual : Option Nat) (total : Int)
+    (h : IR.applyMods origOff func ir actual total ms = .ok ir')
+    (hact : ∀ a, actual = some a → In i ir a) (hI : IdsBelow ir) (hnew : NewPatches origOff func ir actual total ms)
+    (hinv : SInv ir) : SInv ir' :=
+  applyMods_sinv origOff i func ms ir ir' actual total h hact hI hnew hinv.1 hinv.2
 
 end GtirbVerif.Props.C09
